@@ -90,6 +90,17 @@ def build():
                   E('purged', 'final(self).purged(old(self), sorted_seq(old(self).ents().alloc.alive@ + old(self).ents().alloc.raised@))', 'C05')],
          hints=[('after', 'let entities', 'proof { lemma_delete_all(&old(self).ents().alloc, entities@); assert(entities@.subrange(0, entities@.len() as int) =~= entities@); assert(ids(entities@) =~= sorted_seq(old(self).ents().alloc.alive@ + old(self).ents().alloc.raised@)); }'),
                 ('before_tail', None, 'proof { assert forall|i: u32| !(#[trigger] self.abs().occ(i)) by { let f = old(self).abs().kill_fold(entities@, entities@.len()); assert(!f.occ(i)); assert(self.abs().alive.contains(i) == f.alive.contains(i)); assert(self.abs().raised.contains(i) == f.raised.contains(i)); } }')])
+    # the purge itself: walks the table of listed storages (N10: MetaTable::iter_mut -> index loop over the listed storages)
+    u.fn(W, ['impl WorldExt for World', 'fn delete_components'], props='C05', impl_header=IH, key='World::delete_components',
+         rules=[('N10', r'for (?:mut )?storage in self\s*\.fetch_mut::<MetaTable<dyn AnyStorage>>\(\)\s*\.iter_mut\(self\)\s*\{\s*\(?\*?storage\)?\.drop\((.*?)\);\s*\}',
+                 r'for k__ in 0..self.listed_len() { self.listed_drop(k__, \1); }')],
+         ensures=[E('ents', 'final(self).ents() == old(self).ents()'),
+                  E('purged', 'final(self).purged(old(self), ids(delete@))', 'C05')],
+         loops={0: dict(invariant=[
+             E('ents', 'self.ents() == old(self).ents() && self.listed_seq() == old(self).listed_seq()'),
+             E('done', 'forall|s: StorageId| #![trigger self.smask(s)] #![trigger self.listed(s)] #![trigger self.has_storage(s)] self.has_storage(s) == old(self).has_storage(s) && self.listed(s) == old(self).listed(s) && self.smask(s) == (if exists|j: int| 0 <= j < k__ && old(self).listed_seq()[j] == s { old(self).smask(s) - ids(delete@).to_set() } else { old(self).smask(s) })')])},
+         hints=[('start', None, 'broadcast use World::axiom_listed_seq;'),
+                ('after_loop', 0, 'proof { old(self).axiom_listed_seq(); assert forall|s: StorageId| #![trigger self.smask(s)] self.smask(s) == (if old(self).listed(s) { old(self).smask(s) - ids(delete@).to_set() } else { old(self).smask(s) }) by { if old(self).listed(s) { assert(old(self).listed_seq().contains(s)); let j = choose|j: int| 0 <= j < old(self).listed_seq().len() && old(self).listed_seq()[j] == s;  } } }')])
     u.fn(W, ['impl WorldExt for World', 'fn is_alive'], ret='r', props='C02', impl_header=IH, key='World::is_alive',
          requires=[E('wf', 'self.wf()'), E('posgen', 'e.1.0@ > 0')],
          ensures=[E('merged_view', 'r == (self.ents().alloc.alive@.contains(e.0) && self.ents().alloc.gid(e.0 as int) == e.1.0@)')])
